@@ -5,7 +5,7 @@ from vlib import Corr, Search, Failure
 
 ID = 'C33'
 LEVEL = 'proof'
-PROPS = ['Props/C33.v', 'Findings/C33.v']
+PROPS = ['Props/C33.v']
 GEN = []
 TRUSTED = [
     'hand-written model Model/C33Flush.v of SessionCache.flush (rounds, growing objects_to_save), Entity._save_/_save_principal_objects_, '
@@ -306,8 +306,7 @@ LEVEL_TEXT = ('Machine-checked proof (Coq 8.16.1) over a hand-written model of S
               'arbitrary oracle functions that may modify any object or create objects: for every well-formed session state, every hook behaviour and '
               'any number of rounds, a flush that terminates leaves every object\'s event sequence a concatenation of (before_k, statement_k, after_k) '
               'triples (C33_once), nothing pending and every live object\'s database value equal to its in-memory value (C33_edits_saved). '
-              'Entity.flush(obj) is proved under the exact complement of the recorded defect (no referenced object is still unsaved) and refuted '
-              'otherwise. The model is tied to the implementation by log equality on generated histories (vm_compute).')
+              'Entity.flush(obj) (with the principals\' before hooks, /repo b6b47ea) is proved unconditionally (C33_obj_flush_once). The model is tied to the implementation by log equality on generated histories (vm_compute).')
 LEVEL_NOTE = ('Hooks that delete, query or raise, m2m link rows and the 50-round limit error path are outside the theorems. Model is hand-written; '
               'correspondence is differential testing on SQLite.')
 TECHNIQUE = 'Coq invariant proof (per-object phase automaton over the event log) over a hand model; vm_compute log correspondence; seeded history search'
